@@ -29,6 +29,8 @@ EXTENDS Naturals, Sequences, FiniteSets, TLC, Json
 
 CONSTANTS
     Scen1,         \* scenarios of the first run() call (set of records, see MCSpinner)
+    ScenBusy,      \* further single-run scenarios (the busy-reactor ones; kept apart from Scen1 because TLC
+                   \* builds the union of two large sets of records in quadratic time)
     Scen2,         \* scenarios of a second run() on the same Spinner; {NoScen} = single run
     ClearChoices,  \* subset of BOOLEAN: is clear_junk() called between the two runs
     Installs,      \* subset of BOOLEAN: does reactor.run() install its own signal handlers
@@ -120,7 +122,8 @@ Allowed(s, junk0) == IF junk0 # {} THEN {StaleR} ELSE AllowedRun(s)
 
 -----------------------------------------------------------------------------
 Init ==
-    /\ \E s1 \in Scen1, s2 \in Scen2 : scn = IF s2 = NoScen THEN <<s1>> ELSE <<s1, s2>>
+    /\ \/ \E s1 \in Scen1, s2 \in Scen2 : scn = IF s2 = NoScen THEN <<s1>> ELSE <<s1, s2>>
+       \/ \E s1 \in ScenBusy : scn = <<s1>>
     /\ clr \in (IF Len(scn) = 1 THEN {FALSE} ELSE ClearChoices)
     /\ inst \in Installs
     /\ run = 1 /\ pc = "idle" /\ now = 0 /\ calls = <<>> /\ batch = <<>>
